@@ -2,6 +2,7 @@
 from itertools import product
 
 from .. import sx, configs as C
+from ..explore import ErrorsMonitor
 from ..refs.betting import BettingMonitor
 
 PROPERTY = 'C03'
@@ -85,7 +86,7 @@ def jobs(tier, seed):
 
 
 def run_job(job):
-    r, ctx = sx.run(job, [BettingMonitor('C03')], validated='decisions_compared')
+    r, ctx = sx.run(job, [BettingMonitor('C03'), ErrorsMonitor('C03', ('fold', 'check_or_call', 'post_bring_in', 'complete_bet_or_raise_to'))], validated='decisions_compared')
     return r
 
 
